@@ -152,10 +152,15 @@ var (
 	cookieEncKey  = []byte("fedcba9876543210fedcba9876543210")
 )
 
-func newParty(c Case, op *fakeOP) (rp.RelyingParty, error) {
+// position of the rp.WithVerifierOpts element in the []rp.Option of partyOpts
+const outerVerifierOpts = 1
+
+// partyOpts: the []rp.Option the relying parties of the case are constructed from; inner is the caller's
+// []rp.VerifierOption (handed over as it is: rp.WithVerifierOpts(inner...)).
+func partyOpts(c Case, op *fakeOP, inner []rp.VerifierOption) []rp.Option {
 	opts := []rp.Option{
 		rp.WithHTTPClient(&http.Client{Transport: op}),
-		rp.WithVerifierOpts(verifierOpts(c, !c.RP.AlgsFromDiscovery)...),
+		rp.WithVerifierOpts(inner...),
 	}
 	if c.RP.AlgsFromDiscovery {
 		opts = append(opts, rp.WithSigningAlgsFromDiscovery())
@@ -166,8 +171,7 @@ func newParty(c Case, op *fakeOP) (rp.RelyingParty, error) {
 	case "pkce":
 		opts = append(opts, rp.WithPKCE(httphelper.NewCookieHandler(cookieHashKey, nil, httphelper.WithUnsecure())))
 	}
-	return rp.NewRelyingPartyOIDC(context.Background(), c.Cfg.Issuer, c.Cfg.ClientID, "secret", "https://rp.example.com/callback",
-		[]string{"openid", "offline_access"}, opts...)
+	return opts
 }
 
 // ---- one delivery -----------------------------------------------------------------
@@ -182,18 +186,18 @@ type prepared struct {
 
 type nonceKey struct{}
 
-// callContext: the context the application hands to the library with a call.
-func callContext(c Case) context.Context {
+// callContext: the context the application hands to the library with a call to a verifier constructed with cfg.
+func callContext(cfg Config) context.Context {
 	ctx := context.Background()
-	if c.Cfg.NonceMode == "ctx" {
-		ctx = context.WithValue(ctx, nonceKey{}, c.Cfg.Nonce)
+	if cfg.NonceMode == "ctx" {
+		ctx = context.WithValue(ctx, nonceKey{}, cfg.Nonce)
 	}
 	return ctx
 }
 
-func prepare(c Case, s *sut, via string, tok *TokenSpec, token string) prepared {
+func prepare(cfg Config, party rp.RelyingParty, via string, tok *TokenSpec, token string) prepared {
 	if via == "" {
-		return prepared{ctx: callContext(c)}
+		return prepared{ctx: callContext(cfg)}
 	}
 	resp := map[string]any{
 		"access_token":  tok.AccessTok,
@@ -209,16 +213,16 @@ func prepare(c Case, s *sut, via string, tok *TokenSpec, token string) prepared 
 		sub = *tok.Sub
 	}
 	call.userinfo, _ = json.Marshal(map[string]any{"sub": sub})
-	p := prepared{ctx: context.WithValue(callContext(c), opCallKey{}, call)}
+	p := prepared{ctx: context.WithValue(callContext(cfg), opCallKey{}, call)}
 	if via != viaHandler && via != viaUserinfo {
 		return p
 	}
 	const state = "st-1"
 	p.req = httptest.NewRequest(http.MethodGet, "https://rp.example.com/callback?"+url.Values{"code": {"code-1"}, "state": {state}}.Encode(), nil).WithContext(p.ctx)
-	if s.party.CookieHandler() != nil {
+	if party.CookieHandler() != nil {
 		// the login redirect sets the state (and PKCE) cookies the callback handler wants back
 		rec := httptest.NewRecorder()
-		rp.AuthURLHandler(func() string { return state }, s.party)(rec, httptest.NewRequest(http.MethodGet, "https://rp.example.com/login", nil))
+		rp.AuthURLHandler(func() string { return state }, party)(rec, httptest.NewRequest(http.MethodGet, "https://rp.example.com/login", nil))
 		cookies := rec.Result().Cookies()
 		if rec.Code != http.StatusFound || len(cookies) == 0 {
 			p.err = fmt.Errorf("rp.AuthURLHandler: status %d, %d cookies", rec.Code, len(cookies))
@@ -234,14 +238,14 @@ func prepare(c Case, s *sut, via string, tok *TokenSpec, token string) prepared 
 type tokensT = oidc.Tokens[*oidc.IDTokenClaims]
 
 // deliver calls the entry point and reports what the application got: claims, or an error.
-func deliver(s *sut, via string, p prepared) (*oidc.IDTokenClaims, error) {
+func deliver(party rp.RelyingParty, via string, p prepared) (*oidc.IDTokenClaims, error) {
 	var tokens *tokensT
 	var err error
 	switch via {
 	case viaCode:
-		tokens, err = rp.CodeExchange[*oidc.IDTokenClaims](p.ctx, "code-1", s.party)
+		tokens, err = rp.CodeExchange[*oidc.IDTokenClaims](p.ctx, "code-1", party)
 	case viaRefresh:
-		tokens, err = rp.RefreshTokens[*oidc.IDTokenClaims](p.ctx, s.party, "rt-1", "", "")
+		tokens, err = rp.RefreshTokens[*oidc.IDTokenClaims](p.ctx, party, "rt-1", "", "")
 	case viaHandler, viaUserinfo:
 		called := 0
 		var h http.HandlerFunc
@@ -249,12 +253,12 @@ func deliver(s *sut, via string, p prepared) (*oidc.IDTokenClaims, error) {
 			h = rp.CodeExchangeHandler(func(w http.ResponseWriter, r *http.Request, tk *tokensT, state string, _ rp.RelyingParty) {
 				called++
 				tokens = tk
-			}, s.party)
+			}, party)
 		} else {
 			h = rp.CodeExchangeHandler(rp.UserinfoCallback(func(w http.ResponseWriter, r *http.Request, tk *tokensT, state string, _ rp.RelyingParty, info *oidc.UserInfo) {
 				called++
 				tokens = tk
-			}), s.party)
+			}), party)
 		}
 		rec := httptest.NewRecorder()
 		h(rec, p.req)
